@@ -356,6 +356,16 @@ def run(ctx):
             if pts is None:
                 continue
         one(ctx, pts, rand_cfg(ctx, pts), fam)
+    for _ in range(1 if quick else 6):
+        # a GIANT noisy trace, lightly simplified: thousands of reduced points, a thousand knees or more.  Only the real stages, the direct
+        # predicates and the cheap per-stage correspondences run here (the whole-pipeline models are size-guarded) - what caps the number of
+        # knees, iterations or the recursion depth of a stage shows as an unsorted / truncated stage output
+        n = rng.randrange(5000, 7500)
+        xs = np.arange(n, dtype=float)
+        ys = np.round(65536.0 * np.exp(-0.0006 * xs)) / 16.0 + np.array([rng.randrange(0, 64) / 4.0 for _ in range(n)])
+        cfg = rand_cfg(ctx, np.column_stack([xs[:50], ys[:50]]))
+        cfg.update(simplifier='rdp', scfg=dict(dist='shortest', cost='smape', t=1e-4), detector=rng.choice(['menger', 'curvature']), t1=0.0, t2x=0, final='mapping')
+        one(ctx, np.column_stack([xs, ys]), cfg, 'giant-noisy')
     for name, a in gen.traces().items():
         full = a if len(a) <= 700 else a[:: max(1, len(a) // (300 if quick else 700))]
         for _ in range(2 if quick else 12):
